@@ -104,7 +104,7 @@ CLAIMS = {
          "quinn stream credit accounting is a validated model component."),
  "C08": ("Coq theorems on a transition system of the manager loop, handlers, API calls and shutdown(): the shutdown sequence never gets stuck and takes at most meas(s) steps, "
          "the active-peer set is empty when the cleanup is reached, afterwards no peers / handlers / handshakes remain and every API call ever issued has been answered, late "
-         "calls fail at once, at most one shutdown request is accepted, and no schedule - including task cancellation by runtime teardown at any moment - leads to a panic "
+         "calls fail at once, the mailbox is bounded (a call issued while it is full waits for room, is admitted oldest first, never holds the manager up, and fails with the rest if the manager finishes first), at most one shutdown request is accepted, and no schedule - including task cancellation by runtime teardown at any moment - leads to a panic "
          "(true of the repaired code: two teardown defects were found, reproduced on the pinned tree and fixed by fix: commits); tied by trace acceptance - the manager / handler / API events recorded by cfg-guarded trace points in every fabric run are replayed on the model (ShutdownTrace.trun, one model step per event, proved), which must accept them, end in MDone and agree with the implementation on peers, LostPeer count and answered calls - over fabric runs shutting a network down "
          "(explicitly, twice concurrently, or by dropping the last handle) with RPCs, dials and API calls in flight, and by real-time runtime-teardown runs on a multi-thread "
          "runtime under a watchdog. Partial: tokio's scheduling and runtime-drop behaviour are the runtime's.",
